@@ -1,5 +1,5 @@
 # C20 — window specifications and aggregate modifiers are recorded and rendered exactly.
-import json, itertools
+import json, re, itertools
 from common import *
 import impl, l0
 
@@ -130,12 +130,20 @@ def run(ctx):
                     else:
                         ctx.violation("input", dict(sql=sql, returned=short(t, 700) if st == "ok" else [st, str(t)], requires=short(want, 700)))
                     continue
+                # the frame as people write it: over several lines, with comments between its words (not inside the compound CURRENT ROW)
+                if n % 2 == 0 or ctx.thorough:
+                    f2 = ftxt.replace(" AND ", " -- lower bound\n      AND /* upper */ ").replace("BETWEEN ", "BETWEEN\n      ")
+                    f2 = re.sub(r"(\d+|UNBOUNDED) (PRECEDING|FOLLOWING)", lambda m: "%s /* n */ %s" % (m.group(1), m.group(2)), f2, count=1)
+                    sql2 = sql.replace(unit + " " + ftxt, unit + " # the frame\n      " + f2)
+                    st5, t5 = impl.outcome(M.parse, sql2)
+                    ctx.count(1, sql2)
+                    if st5 != "ok" or canon(t5) != canon(t):
+                        ctx.violation("input", dict(sql=sql2, returned=short(t5, 600) if st5 == "ok" else [st5, str(t5)], requires="the frame of %r: %s" % (sql, short(t, 500))))
                 # format -> parse
                 st2, s2 = impl.outcome(M.format, t)
                 st3, t2 = impl.outcome(M.parse, s2) if st2 == "ok" else ("fmt", s2)
                 if st2 == "ok":
                     # what frame did the formatter write?
-                    import re
                     m = re.search(r"ROWS (.*?)\)", s2)
                     written = parse_frame_text(m.group(1).split()) if m else None
                     checks.append("f_eqb (fmt_frame %s) %s" % (coq_mm(spec(fr)), fcoq(written))); meta.append(("fmt_frame", sql))
